@@ -3,6 +3,22 @@
 From Coq Require Import PeanoNat.
 From LLF Require Import Base BitLemmas Row RowProofs Bitfield Lower Spec LowerMachine ConcBase ConcInvDef ConcInvGeom ConcInvStep.
 
+(* ---------- tactics ---------- *)
+(* expose the ghost functions of concrete pcs *)
+Ltac gsimp :=
+  unfold fr, tr, pend, trcount, needsC, hfr;
+  cbn [ghost_of gpc gtoggle gpend gtr gown ghuge gput gsplit gh0 g_h own_lo own_n tr_lo tr_n p_n nd hu].
+Ltac gsimp_in H :=
+  unfold fr, tr, pend, trcount, needsC, hfr in H;
+  cbn [ghost_of gpc gtoggle gpend gtr gown ghuge gput gsplit gh0 g_h own_lo own_n tr_lo tr_n p_n nd hu] in H.
+Ltac destr_if :=
+  repeat match goal with
+         | |- context [if ?b then _ else _] => destruct b eqn:?
+         end.
+Ltac gsolve := intros; gsimp; unfold inb; try lia; destr_if; try lia.
+(* the six ghost-sameness conditions *)
+Ltac gsame_tac := constructor; gsolve.
+
 Section Shapes.
   Variable g : geom.
   Hypothesis wf : wf_geom g.
@@ -103,13 +119,49 @@ Section Shapes.
     pose proof (entv_rd s h cur Hrd) as Ec.
     apply (inv_ent s t x0 x' h cur e' (ms_held s) I Ht Hrd); try assumption; [| |apply I].
     - intros h' Hne. apply gsame_H, Hs, Hne.
-    - constructor; rewrite ?(mk_ent_entv _ _ _ _ _ _ _ _ Hrd), ?N.eqb_refl, ?mk_ent_bit, ?mk_ent_zeros; try contradiction; try lia.
-      + intros _ r i Hr Hi. cbn [ms_held mk_ent set_held]. rewrite Hfr, Htr, Ec. unfold isMark.
+    - constructor; intros;
+        rewrite ?(mk_ent_entv _ _ _ _ _ _ _ _ Hrd), ?N.eqb_refl, ?mk_ent_bit, ?mk_ent_zeros in *; try contradiction; try lia.
+      + cbn [ms_held mk_ent set_held]. rewrite Hfr, Htr, Ec. unfold isMark.
         destruct (N.eqb_spec e' MARK); [contradiction|]. destruct (N.eqb_spec cur MARK); [contradiction|]. lia.
-      + intros _ _. pose proof (I_C g s I h Hh ltac:(rewrite Ec; exact Hc)) as C. rewrite Ec in C. rewrite Htc. lia.
-      + intros _. cbn [ms_held mk_ent set_held]. pose proof (I_F g s I h ltac:(rewrite Ec; exact Hc)) as F.
+      + pose proof (I_C g s I h Hh ltac:(rewrite Ec; exact Hc)) as C. rewrite Ec in C. rewrite Htc. lia.
+      + cbn [ms_held mk_ent set_held]. pose proof (I_F g s I h ltac:(rewrite Ec; exact Hc)) as F.
         pose proof (sumf_ge (hfr g h) _ _ _ Ht). lia.
   Qed.
+
+  (* ----- entry operations ----- *)
+  Lemma e_dec_some v n v' : e_dec v n = Some v' -> v <> MARK /\ n <= v /\ v' = v - n.
+  Proof. unfold e_dec, e_free, e_huge. destruct (N.eqb_spec v MARK); cbn [negb andb]; [discriminate|].
+    destruct (N.leb_spec n v); [|discriminate]. intros E; inversion E. auto. Qed.
+  Lemma e_dec_none v n : e_dec v n = None -> v = MARK \/ v < n.
+  Proof. unfold e_dec, e_free, e_huge. destruct (N.eqb_spec v MARK); cbn [negb andb]; [auto|].
+    destruct (N.leb_spec n v); [discriminate|auto]. Qed.
+  Lemma e_inc_some v n v' : e_inc g v n = Some v' -> v <> MARK /\ v + n <= HF /\ v' = v + n.
+  Proof. unfold e_inc, e_free, e_huge. destruct (N.eqb_spec v MARK); cbn [negb andb]; [discriminate|].
+    destruct (N.leb_spec (v + n) HF); [|discriminate]. intros E; inversion E. auto. Qed.
+  Lemma e_inc_none v n : e_inc g v n = None -> v = MARK \/ HF < v + n.
+  Proof. unfold e_inc, e_free, e_huge. destruct (N.eqb_spec v MARK); cbn [negb andb]; [auto|].
+    destruct (N.leb_spec (v + n) HF); [discriminate|auto]. Qed.
+
+  Lemma ent_nz_lt s h : Inv g s -> entv s h <> 0 -> h < nbf g (ms_frames s).
+  Proof. intros I H. destruct (N.lt_ge_cases h (nbf g (ms_frames s))); [assumption|]. exfalso. apply H, (I_nobf g s I), H0. Qed.
+
+  (* the counter plus what a thread has pending never exceeds HF *)
+  Lemma counter_bound s t x h : Inv g s -> nth_error (ms_pool s) t = Some x -> h < nbf g (ms_frames s) ->
+    entv s h <> MARK -> entv s h + pend g h x + gfr g h x <= HF.
+  Proof.
+    intros I Ht Hh He. pose proof (K1 g wf s h I Hh He) as K.
+    pose proof (sumf_upd (pend g h) _ t (TIdle None) x Ht) as U1.
+    pose proof (sumf_upd (gfr g h) _ t (TIdle None) x Ht) as U2.
+    assert (pend g h (TIdle None) = 0) by gsolve.
+    assert (gfr g h (TIdle None) = 0).
+    { unfold gfr, gsum. rewrite (ssum_ext _ _ (fun _ => 0)); [rewrite ssum_const; lia|].
+      intros r _. rewrite (ssum_ext _ _ (fun _ => 0)); [rewrite ssum_const; lia|]. intros i _. gsimp. unfold inb. lia. }
+    lia.
+  Qed.
+  (* a thread that needs a counter sees one *)
+  Lemma needs_counter s t x h : Inv g s -> nth_error (ms_pool s) t = Some x -> h < nbf g (ms_frames s) ->
+    needsC g h x = 1 -> entv s h <> MARK.
+  Proof. intros I Ht Hh Hn He. pose proof (I_D g s I h Hh He). pose proof (sumf_ge (needsC g h) _ _ _ Ht). lia. Qed.
 
   (* ----- one row is written ----- *)
   Definition mk_row (s : mstate) (h0 r0 v' : N) (t : nat) (x' : thr) (held' : list (N * nat)) : mstate :=
@@ -148,20 +200,348 @@ Section Shapes.
       + intros r. rewrite (mk_row_rowv _ _ _ _ _ _ _ _ _ _ Hrd). destruct (N.eqb_spec h h0); [contradiction|reflexivity].
       + apply zeros_wr_row_other. exact Hne.
   Qed.
+
+  (* a row step whose change of ownership matches the change of the bits *)
+  Lemma inv_row_delta s t x0 x' h0 r0 cur v' held' :
+    Inv g s -> nth_error (ms_pool s) t = Some x0 -> rd_row s h0 r0 = Some cur -> v' < W64 ->
+    h0 < nbf g (ms_frames s) ->
+    (forall h, h <> h0 -> gsameH s held' x0 x' h) ->
+    (forall r i, r < ROWS -> i < 64 ->
+       b2n (if r =? r0 then N.testbit v' i else bit s h0 r i) + heldc (fidx g h0 r i) (ms_held s) + fr g h0 r i x0 + tr g h0 r x0
+       = b2n (bit s h0 r i) + heldc (fidx g h0 r i) held' + fr g h0 r i x' + tr g h0 r x') ->
+    (entv s h0 = MARK -> forall r i, r < ROWS -> i < 64 ->
+       heldc (fidx g h0 r i) held' + fr g h0 r i x' = heldc (fidx g h0 r i) (ms_held s) + fr g h0 r i x0) ->
+    (entv s h0 <> MARK -> pend g h0 x' + 64 * trcount g h0 x0 + cz cur = cz v' + 64 * trcount g h0 x' + pend g h0 x0) ->
+    (entv s h0 = MARK -> needsC g h0 x' = 0) ->
+    hugec g h0 held' + hfr g h0 x' = hugec g h0 (ms_held s) + hfr g h0 x0 ->
+    isBad x' = 0 -> local_b g (ms_frames s) x' = true ->
+    Forall (fun b => blk_ok (ms_frames s) b = true) held' ->
+    Inv g (mk_row s h0 r0 v' t x' held').
+  Proof.
+    intros I Ht Hrd Hv Hh Hs HA HB HC HD HF Hb Hl Hhe.
+    apply (inv_row s t x0 x' h0 r0 cur v' held' I Ht Hrd Hv Hs); try assumption.
+    constructor; intros; rewrite ?mk_row_entv, ?(mk_row_bit _ _ _ _ _ _ _ _ _ _ Hrd) in *; try lia.
+    - cbn [ms_held mk_row set_held]. specialize (HA r i H0 H1). lia.
+    - cbn [ms_held mk_row set_held]. specialize (HB H0 r i H1 H2). pose proof (I_B g s I h0 Hh H0 r i H1 H2). lia.
+    - specialize (HC H0). pose proof (I_C g s I h0 Hh H0). pose proof (mk_row_zeros s h0 r0 v' t x' held' cur Hrd). lia.
+    - specialize (HD H0). pose proof (I_D g s I h0 Hh H0). pose proof (sumf_ge (needsC g h0) _ _ _ Ht). lia.
+    - apply (I_G g s I h0 Hh H0).
+    - cbn [ms_held mk_row set_held]. pose proof (I_F g s I h0 H). pose proof (sumf_ge (hfr g h0) _ _ _ Ht). lia.
+  Qed.
+
+  Lemma heldc_cons b held x : heldc x (b :: held) = b2n (cover b x) + heldc x held.
+  Proof. reflexivity. Qed.
+  Lemma hugec_cons b held h : hugec g h (b :: held) = hugeb g h b + hugec g h held.
+  Proof. reflexivity. Qed.
+  Lemma hugeb_small h f k : (k < hord g)%nat -> hugeb g h (f, k) = 0.
+  Proof. intros H. unfold hugeb. cbn [snd]. destruct (Nat.leb_spec (hord g) k); [lia|reflexivity]. Qed.
+
+  Lemma mod_add_aligned a b m : m <> 0 -> a mod m = 0 -> b mod m = 0 -> (a + b) mod m = 0.
+  Proof. intros Hm Ha Hb. apply N.mod_divide in Ha, Hb; try assumption. apply N.mod_divide; [assumption|]. apply N.divide_add_r; assumption. Qed.
+  Lemma mod_mul_aligned a b m : m <> 0 -> b mod m = 0 -> (a * b) mod m = 0.
+  Proof. intros Hm Hb. apply N.mod_divide in Hb; try assumption. apply N.mod_divide; [assumption|]. apply N.divide_mul_r; assumption. Qed.
+  Lemma HF_mod_pow2 k : (k <= hord g)%nat -> HF mod pow2 k = 0.
+  Proof. intros H. rewrite HF_pow2, (pow2_split k (hord g)) by lia. apply N.mod_mul, pow2_nz. Qed.
+  Lemma mod64_pow2 k : (k <= 6)%nat -> 64 mod pow2 k = 0.
+  Proof. intros H. change 64 with (pow2 6). rewrite (pow2_split k 6) by lia. apply N.mod_mul, pow2_nz. Qed.
+
+  (* a thread whose whole ghost is "n frames pending at h" *)
+  Record pending_at (x0 : thr) (h n : N) : Prop := {
+    PA_fr : forall h' r i, fr g h' r i x0 = 0;
+    PA_tr : forall h' r, tr g h' r x0 = 0;
+    PA_trc : forall h', trcount g h' x0 = 0;
+    PA_hfr : forall h', hfr g h' x0 = 0;
+    PA_pend : pend g h x0 = n;
+    PA_pend' : forall h', h' <> h -> pend g h' x0 = 0;
+    PA_nd : needsC g h x0 = 1
+  }.
+
+  Lemma pending_gpend x h n : ghost_of g x = gpend h n -> pending_at x h n.
+  Proof. intros E. constructor; intros; unfold fr, tr, pend, trcount, needsC, hfr; rewrite E; cbn; unfold inb;
+    rewrite ?N.eqb_refl; try reflexivity; try lia; destr_if; lia. Qed.
+  Lemma pending_gtr0 x h n lo : ghost_of g x = gtr h n lo 0 -> pending_at x h n.
+  Proof. intros E. constructor; intros; unfold fr, tr, pend, trcount, needsC, hfr; rewrite E; cbn; unfold inb;
+    rewrite ?N.eqb_refl; try reflexivity; try lia; destr_if; lia. Qed.
+
+  Lemma finish_get_row s h r v' t c f : is_put c = false ->
+    finish (wr_row s h r v') t c (Ok f) = mk_row s h r v' t (TIdle (Some (Ok f))) ((f, c_order c) :: ms_held s).
+  Proof. intros H. destruct c; try discriminate; unfold finish, mk_row; cbn [ms_held set_thr c_order]; rewrite held_wr_row; reflexivity. Qed.
+  Lemma finish_get_ent s h v' t c f : is_put c = false ->
+    finish (wr_ent s h v') t c (Ok f) = mk_ent s h v' t (TIdle (Some (Ok f))) ((f, c_order c) :: ms_held s).
+  Proof. intros H. destruct c; try discriminate; reflexivity. Qed.
+  Lemma set_thr_row s h r v t x : set_thr (wr_row s h r v) t x = mk_row s h r v t x (ms_held s).
+  Proof. unfold mk_row, set_held, set_thr. cbn [ms_frames ms_ents ms_bfs ms_pool ms_held]. rewrite held_wr_row. reflexivity. Qed.
+  Lemma goto_row s h r v t c p : goto (wr_row s h r v) t c p = mk_row s h r v t (TRun c p) (ms_held s).
+  Proof. apply set_thr_row. Qed.
+  Lemma finish_put s t c r : is_put c = true -> finish s t c r = set_thr s t (TIdle (Some r)).
+  Proof. intros H. destruct c; try discriminate. destruct r; reflexivity. Qed.
+
+  (* the bits [off, off + 2^k) of row r of h are set and the block is handed out *)
+  Lemma inv_alloc_block s t x0 h r cur v' off k res :
+    Inv g s -> nth_error (ms_pool s) t = Some x0 -> rd_row s h r = Some cur -> v' < W64 ->
+    h < nbf g (ms_frames s) -> r < ROWS -> (k < hord g)%nat -> (k <= 6)%nat -> off + pow2 k <= 64 -> off mod pow2 k = 0 ->
+    (forall i, i < 64 -> N.testbit v' i = N.testbit cur i || inb off (pow2 k) i) ->
+    (forall i, inb off (pow2 k) i = true -> N.testbit cur i = false) ->
+    pending_at x0 h (pow2 k) ->
+    Inv g (mk_row s h r v' t (TIdle (Some res)) ((h * HF + r * 64 + off, k) :: ms_held s)).
+  Proof.
+    intros I Ht Hrd Hv Hh Hr Hk Hk6 Hoff Hal Hset Hfree [Pfr Ptr Ptrc Phfr Pp Pp' Pnd].
+    pose proof (rowv_rd s h r cur Hrd) as Erow.
+    pose proof (needs_counter s t x0 h I Ht Hh Pnd) as He.
+    assert (Hcov : forall h' r' i, r' < ROWS -> i < 64 ->
+              cover (h * HF + r * 64 + off, k) (fidx g h' r' i) = (h' =? h) && ((r' =? r) && inb off (pow2 k) i)).
+    { intros h' r' i Hr' Hi. unfold cover, fidx. cbn [fst snd].
+      rewrite <- !N.add_assoc. rewrite (inb_in_huge g h (r * 64 + off) (pow2 k) h' (r' * 64 + i)).
+      - rewrite (inb_in_row r off (pow2 k) r' i Hoff Hi). reflexivity.
+      - pose proof (rowbit_lt g wf r 63 Hr ltac:(lia)). lia.
+      - apply (rowbit_lt g wf); assumption. }
+    apply (inv_row_delta s t x0 _ h r cur v' _ I Ht Hrd Hv Hh).
+    - intros h' Hne. constructor; intros; rewrite ?Pfr, ?Ptr, ?Ptrc, ?Phfr, ?(Pp' _ Hne); gsimp; unfold inb; try lia.
+      + rewrite heldc_cons, Hcov by assumption. destruct (N.eqb_spec h' h); [contradiction|]. cbn. lia.
+      + destr_if; lia.
+      + destr_if; lia.
+      + rewrite hugec_cons, hugeb_small by assumption. lia.
+    - intros r' i Hr' Hi. rewrite Pfr, Ptr, heldc_cons, Hcov, N.eqb_refl by assumption. cbn [andb]. gsimp. unfold bit.
+      destruct (N.eqb_spec r' r) as [->|Hne]; cbn [andb].
+      + rewrite Erow, (Hset i Hi). specialize (Hfree i). destruct (inb off (pow2 k) i) eqn:Ei.
+        * rewrite Hfree by reflexivity. cbn. unfold inb. lia.
+        * rewrite orb_false_r. cbn. unfold inb. lia.
+      + cbn. unfold inb. lia.
+    - intros Hm. contradiction.
+    - intros _. rewrite Ptrc, Pp. pose proof (cz_set cur v' off (pow2 k) Hoff Hset Hfree). gsimp. destr_if; lia.
+    - intros Hm. contradiction.
+    - rewrite hugec_cons, hugeb_small, Phfr by assumption. gsimp. cbn. lia.
+    - reflexivity.
+    - reflexivity.
+    - constructor; [|apply I].
+      unfold blk_ok. cbn [fst snd]. apply andb_true_iff. split.
+      + apply N.eqb_eq. pose proof (pow2_nz k).
+        apply mod_add_aligned; [assumption| |exact Hal].
+        apply mod_add_aligned; [assumption| |]; apply mod_mul_aligned; try assumption.
+        * apply HF_mod_pow2. lia.
+        * apply mod64_pow2. exact Hk6.
+      + apply N.leb_le. pose proof (pow2_pos k).
+        assert (Hi : off + pow2 k - 1 < 64) by lia.
+        pose proof (I_A g s I h r (off + pow2 k - 1) Hh Hr Hi) as A.
+        unfold bit in A. rewrite Erow, Hfree in A by (unfold inb; lia).
+        unfold isMark, oor, fidx in A. destruct (N.eqb_spec (entv s h) MARK); [contradiction|]. cbn [b2n] in A.
+        destruct (N.leb_spec (ms_frames s) (h * HF + r * 64 + (off + pow2 k - 1))); [cbn [b2n] in A; lia|]. lia.
+  Qed.
+
+  (* the undo increment of a pending amount cannot fail *)
+  Lemma inc_possible s t x0 h n cur : Inv g s -> nth_error (ms_pool s) t = Some x0 -> h < nbf g (ms_frames s) ->
+    needsC g h x0 = 1 -> pend g h x0 = n -> rd_ent s h = Some cur ->
+    e_inc g cur n = Some (cur + n) /\ cur <> MARK /\ cur + n <= HF.
+  Proof.
+    intros I Ht Hh Hnd Hp Hrd. pose proof (entv_rd s h cur Hrd) as Ec.
+    pose proof (needs_counter s t x0 h I Ht Hh Hnd) as He. rewrite Ec in He.
+    pose proof (counter_bound s t x0 h I Ht Hh ltac:(rewrite Ec; exact He)) as Kb. rewrite Ec, Hp in Kb.
+    unfold e_inc, e_free, e_huge. destruct (N.eqb_spec cur MARK); [contradiction|]. cbn [negb andb].
+    destruct (N.leb_spec (cur + n) HF); [auto|lia].
+  Qed.
+
+  (* ----- what ownership says about the bits ----- *)
+  Lemma transit_bit s t x0 h r i : Inv g s -> nth_error (ms_pool s) t = Some x0 ->
+    h < nbf g (ms_frames s) -> r < ROWS -> i < 64 -> tr g h r x0 = 1 -> bit s h r i = true.
+  Proof.
+    intros I Ht Hh Hr Hi Htr. apply b2n_true. pose proof (I_A g s I h r i Hh Hr Hi) as A.
+    pose proof (sumf_ge (tr g h r) _ _ _ Ht) as G. unfold isMark in A.
+    destruct (N.eqb_spec (entv s h) MARK) as [He|He]; cbn [b2n] in A; [|lia].
+    pose proof (I_B g s I h Hh He r i Hr Hi). lia.
+  Qed.
+  Lemma transit_row_full s t x0 h r cur : Inv g s -> nth_error (ms_pool s) t = Some x0 ->
+    h < nbf g (ms_frames s) -> r < ROWS -> tr g h r x0 = 1 -> rd_row s h r = Some cur -> cur = MAX64.
+  Proof.
+    intros I Ht Hh Hr Htr Hrd. destruct (has_row g wf s h r I Hh Hr) as (v & Ev & Hv). rewrite Hrd in Ev. inversion Ev; subst v.
+    apply row_all_set; [exact Hv|]. intros i Hi. pose proof (transit_bit s t x0 h r i I Ht Hh Hr Hi Htr) as B.
+    unfold bit in B. rewrite (rowv_rd s h r cur Hrd) in B. exact B.
+  Qed.
+  Lemma owned_bit s t x0 h r i : Inv g s -> nth_error (ms_pool s) t = Some x0 ->
+    h < nbf g (ms_frames s) -> r < ROWS -> i < 64 -> entv s h <> MARK -> fr g h r i x0 = 1 -> bit s h r i = true.
+  Proof.
+    intros I Ht Hh Hr Hi He Hfr. apply b2n_true. pose proof (I_A g s I h r i Hh Hr Hi) as A.
+    pose proof (sumf_ge (fr g h r i) _ _ _ Ht) as G. unfold isMark in A.
+    destruct (N.eqb_spec (entv s h) MARK); [contradiction|]. cbn [b2n] in A. lia.
+  Qed.
+
+  (* ----- a row enters / leaves the transit of the thread ----- *)
+  Record tr_grow (x0 x' : thr) (h r : N) : Prop := {
+    TG_fr : forall h' r' i, fr g h' r' i x' = fr g h' r' i x0;
+    TG_hfr : forall h', hfr g h' x' = hfr g h' x0;
+    TG_pend : forall h', pend g h' x' = pend g h' x0;
+    TG_nd : forall h', needsC g h' x' = needsC g h' x0;
+    TG_tr : forall r', tr g h r' x' = tr g h r' x0 + b2n (r' =? r);
+    TG_tr' : forall h' r', h' <> h -> tr g h' r' x' = tr g h' r' x0;
+    TG_trc : trcount g h x' = trcount g h x0 + 1;
+    TG_trc' : forall h', h' <> h -> trcount g h' x' = trcount g h' x0
+  }.
+  Lemma tr_grow_ghost x0 x' :
+    ghost_of g x' = {| g_h := g_h (ghost_of g x0); own_lo := own_lo (ghost_of g x0); own_n := own_n (ghost_of g x0);
+                       tr_lo := tr_lo (ghost_of g x0); tr_n := tr_n (ghost_of g x0) + 1; p_n := p_n (ghost_of g x0);
+                       nd := nd (ghost_of g x0); hu := hu (ghost_of g x0) |} ->
+    tr_grow x0 x' (g_h (ghost_of g x0)) (tr_lo (ghost_of g x0) + tr_n (ghost_of g x0)).
+  Proof.
+    intros E. constructor; intros; unfold fr, tr, pend, trcount, needsC, hfr; rewrite E;
+      cbn [g_h own_lo own_n tr_lo tr_n p_n nd hu]; rewrite ?N.eqb_refl; try reflexivity; unfold inb; try lia; destr_if; lia.
+  Qed.
+
+  Lemma inv_fill_row s t x0 x' h r :
+    Inv g s -> nth_error (ms_pool s) t = Some x0 -> rd_row s h r = Some 0 ->
+    h < nbf g (ms_frames s) -> r < ROWS -> tr_grow x0 x' h r ->
+    isBad x' = 0 -> local_b g (ms_frames s) x' = true ->
+    Inv g (mk_row s h r MAX64 t x' (ms_held s)).
+  Proof.
+    intros I Ht Hrd Hh Hr [Tfr Thfr Tp Tnd Ttr Ttr' Ttrc Ttrc'] Hb Hl.
+    pose proof (rowv_rd s h r 0 Hrd) as Erow.
+    apply (inv_row_delta s t x0 x' h r 0 MAX64 _ I Ht Hrd); try assumption; try reflexivity; try (apply I).
+    - intros h' Hne. constructor; intros; rewrite ?Tfr, ?Thfr, ?Tp, ?Tnd, ?(Ttr' _ _ Hne), ?(Ttrc' _ Hne); lia.
+    - intros r' i Hr' Hi. rewrite Tfr, Ttr. unfold bit. destruct (N.eqb_spec r' r) as [->|Hne].
+      + rewrite Erow, testbit_MAX64, N.bits_0. cbn. destruct (N.ltb_spec i 64); [cbn; lia|lia].
+      + cbn. lia.
+    - intros _ r' i _ _. rewrite Tfr. reflexivity.
+    - intros _. rewrite Tp, Ttrc, cz_0, cz_MAX64. lia.
+    - intros He. rewrite Tnd. pose proof (I_D g s I h Hh He). pose proof (sumf_ge (needsC g h) _ _ _ Ht). lia.
+    - rewrite Thfr. reflexivity.
+  Qed.
+
+  Lemma inv_unfill_row s t x0 x' h r cur :
+    Inv g s -> nth_error (ms_pool s) t = Some x0 -> rd_row s h r = Some cur ->
+    h < nbf g (ms_frames s) -> r < ROWS -> tr_grow x' x0 h r ->
+    isBad x' = 0 -> local_b g (ms_frames s) x' = true ->
+    cur = MAX64 /\ Inv g (mk_row s h r 0 t x' (ms_held s)).
+  Proof.
+    intros I Ht Hrd Hh Hr [Tfr Thfr Tp Tnd Ttr Ttr' Ttrc Ttrc'] Hb Hl.
+    assert (Hcur : cur = MAX64).
+    { apply (transit_row_full s t x0 h r cur I Ht Hh Hr); [|exact Hrd]. pose proof (Ttr r) as E. rewrite N.eqb_refl in E.
+      unfold tr in *. cbn [b2n] in E. lia. }
+    split; [exact Hcur|]. subst cur.
+    pose proof (rowv_rd s h r MAX64 Hrd) as Erow.
+    apply (inv_row_delta s t x0 x' h r MAX64 0 _ I Ht Hrd); try assumption; try reflexivity; try (apply I).
+    - intros h' Hne. constructor; intros; rewrite <- ?Tfr, <- ?Thfr, <- ?Tp, <- ?Tnd, <- ?(Ttr' _ _ Hne), <- ?(Ttrc' _ Hne); lia.
+    - intros r' i Hr' Hi. rewrite Tfr, Ttr. unfold bit. destruct (N.eqb_spec r' r) as [->|Hne].
+      + rewrite Erow, testbit_MAX64, N.bits_0. cbn. destruct (N.ltb_spec i 64); [cbn; lia|lia].
+      + cbn. lia.
+    - intros _ r' i _ _. rewrite Tfr. reflexivity.
+    - intros _. rewrite Tp, Ttrc, cz_0, cz_MAX64. lia.
+    - intros He. rewrite <- Tnd. pose proof (I_D g s I h Hh He). pose proof (sumf_ge (needsC g h) _ _ _ Ht). lia.
+    - rewrite Thfr. reflexivity.
+  Qed.
+
+  Lemma zero_bit_in_range s h r i : Inv g s -> h < nbf g (ms_frames s) -> r < ROWS -> i < 64 ->
+    entv s h <> MARK -> bit s h r i = false -> fidx g h r i < ms_frames s.
+  Proof.
+    intros I Hh Hr Hi He Hb. pose proof (I_A g s I h r i Hh Hr Hi) as A. rewrite Hb in A. unfold isMark, oor in A.
+    destruct (N.eqb_spec (entv s h) MARK); [contradiction|]. cbn [b2n] in A.
+    destruct (N.leb_spec (ms_frames s) (fidx g h r i)); [cbn [b2n] in A; lia|assumption].
+  Qed.
+
+  (* the last row of a multi-row block is filled and the block is handed out *)
+  Lemma inv_alloc_rows s t x0 h lo q k res :
+    Inv g s -> nth_error (ms_pool s) t = Some x0 -> rd_row s h (lo + q) = Some 0 ->
+    h < nbf g (ms_frames s) -> lo + q < ROWS -> (k < hord g)%nat -> pow2 k = 64 * (q + 1) ->
+    ghost_of g x0 = gtr h (pow2 k) lo q ->
+    blk_ok (ms_frames s) (h * HF + lo * 64, k) = true ->
+    Inv g (mk_row s h (lo + q) MAX64 t (TIdle (Some res)) ((h * HF + lo * 64, k) :: ms_held s)).
+  Proof.
+    intros I Ht Hrd Hh Hr Hk Hn E Hok.
+    pose proof (rowv_rd s h _ 0 Hrd) as Erow.
+    assert (Hnd : needsC g h x0 = 1) by (unfold needsC; rewrite E; cbn; rewrite N.eqb_refl; reflexivity).
+    pose proof (needs_counter s t x0 h I Ht Hh Hnd) as He.
+    assert (Hcov : forall h' r' i, r' < ROWS -> i < 64 ->
+              cover (h * HF + lo * 64, k) (fidx g h' r' i) = (h' =? h) && inb lo (q + 1) r').
+    { intros h' r' i Hr' Hi. unfold cover, fidx. cbn [fst snd].
+      rewrite <- !N.add_assoc, Hn. rewrite (inb_in_huge g h (lo * 64) (64 * (q + 1)) h' (r' * 64 + i)).
+      - rewrite (inb_rows lo (q + 1) r' i Hi). reflexivity.
+      - rewrite (HF_64 g wf). lia.
+      - apply (rowbit_lt g wf); assumption. }
+    apply (inv_row_delta s t x0 _ h (lo + q) 0 MAX64 _ I Ht Hrd); try assumption; try reflexivity.
+    - intros h' Hne. constructor; intros; unfold fr, tr, pend, trcount, needsC, hfr; rewrite E; gsimp; unfold inb; try (destr_if; lia).
+      + rewrite heldc_cons, Hcov by assumption. destruct (N.eqb_spec h' h); [contradiction|]. cbn. lia.
+      + rewrite hugec_cons, hugeb_small by assumption. lia.
+    - intros r' i Hr' Hi. rewrite heldc_cons, Hcov, N.eqb_refl by assumption. cbn [andb].
+      unfold fr, tr, bit. rewrite E. gsimp. rewrite N.eqb_refl. cbn [andb]. unfold inb.
+      destruct (N.eqb_spec r' (lo + q)) as [->|Hne].
+      + rewrite Erow, testbit_MAX64, N.bits_0. destruct (N.ltb_spec i 64); [cbn; lia|lia].
+      + lia.
+    - intros Hm. contradiction.
+    - intros _. unfold pend, trcount. rewrite E. gsimp. rewrite N.eqb_refl, cz_0, cz_MAX64. destr_if; lia.
+    - intros Hm. contradiction.
+    - rewrite hugec_cons, hugeb_small by assumption. unfold hfr. rewrite E. gsimp. cbn. lia.
+    - constructor; [exact Hok|apply I].
+  Qed.
+
+  (* ----- the block of a small get_at / put in (huge frame, row, bit) coordinates ----- *)
+  Lemma own_block6 fr c h' r' i : cwf g fr c = true -> small g c = true -> is_get c = false -> (c_order c <= 6)%nat ->
+    r' < ROWS -> i < 64 ->
+    inb (c_frame c) (c_n c) (fidx g h' r' i)
+    = (h' =? c_huge g c) && ((r' =? t_row g XPut c) && inb (t_off XPut c) (c_n c) i).
+  Proof.
+    intros Hc Hs Hg H6 Hr Hi. destruct (small_call_decomp g wf fr c Hc Hs Hg) as (E & H1 & H2 & Hal & _).
+    assert (Hk : (c_order c < hord g)%nat) by (unfold small in Hs; apply Nat.ltb_lt in Hs; exact Hs).
+    pose proof (small_fit6 g (c_frame c) (c_order c) Hal Hk H6) as Hfit. fold (t_off XPut c) in Hfit. fold (c_n c) in Hfit.
+    rewrite E at 1. unfold fidx. rewrite <- !N.add_assoc.
+    rewrite (inb_in_huge g (c_huge g c) (t_row g XPut c * 64 + t_off XPut c) (c_n c) h' (r' * 64 + i)).
+    - rewrite (inb_in_row (t_row g XPut c) (t_off XPut c) (c_n c) r' i Hfit Hi). reflexivity.
+    - pose proof (rowbit_lt g wf (t_row g XPut c) 63 H1 ltac:(lia)). lia.
+    - apply (rowbit_lt g wf); assumption.
+  Qed.
+  Lemma own_rows7 fr c q h' r' i : cwf g fr c = true -> small g c = true -> is_get c = false -> (7 <= c_order c)%nat ->
+    q <= pow2 (c_order c - 6) -> r' < ROWS -> i < 64 ->
+    inb (c_frame c + 64 * q) (c_n c - 64 * q) (fidx g h' r' i)
+    = (h' =? c_huge g c) && inb (t_row g XPut c + q) (pow2 (c_order c - 6) - q) r'.
+  Proof.
+    intros Hc Hs Hg H7 Hq Hr Hi. destruct (small_call_decomp g wf fr c Hc Hs Hg) as (E & H1 & H2 & Hal & _).
+    destruct (toggle_rows_fit g wf fr c Hc Hs Hg H7) as (E0 & En & Hfit).
+    rewrite E, E0, En. unfold fidx. 
+    replace (c_huge g c * HF + t_row g XPut c * 64 + 0 + 64 * q) with (c_huge g c * HF + (t_row g XPut c + q) * 64) by lia.
+    replace (64 * pow2 (c_order c - 6) - 64 * q) with (64 * (pow2 (c_order c - 6) - q)) by lia.
+    rewrite <- !N.add_assoc.
+    rewrite (inb_in_huge g (c_huge g c) ((t_row g XPut c + q) * 64) _ h' (r' * 64 + i)).
+    - rewrite (inb_rows (t_row g XPut c + q) _ r' i Hi). reflexivity.
+    - rewrite (HF_64 g wf). nia.
+    - apply (rowbit_lt g wf); assumption.
+  Qed.
+
+  Lemma owned_block s t x0 h r cur off w : Inv g s -> nth_error (ms_pool s) t = Some x0 -> rd_row s h r = Some cur ->
+    h < nbf g (ms_frames s) -> r < ROWS -> off + w <= 64 -> needsC g h x0 = 1 ->
+    (forall i, inb off w i = true -> fr g h r i x0 = 1) ->
+    forall i, inb off w i = true -> N.testbit cur i = true.
+  Proof.
+    intros I Ht Hrd Hh Hr Hw Hnd Hfr i Hi. pose proof (needs_counter s t x0 h I Ht Hh Hnd) as He.
+    assert (Hi64 : i < 64) by (unfold inb in Hi; lia).
+    pose proof (owned_bit s t x0 h r i I Ht Hh Hr Hi64 He (Hfr i Hi)) as B. unfold bit in B. rewrite (rowv_rd s h r cur Hrd) in B. exact B.
+  Qed.
+
+  (* the thread clears bits [off, off+w) of row r that it owns; they become pending *)
+  Lemma inv_release s t x0 x' h r cur v' off w :
+    Inv g s -> nth_error (ms_pool s) t = Some x0 -> rd_row s h r = Some cur -> v' < W64 ->
+    h < nbf g (ms_frames s) -> r < ROWS -> off + w <= 64 -> needsC g h x0 = 1 ->
+    (forall i, i < 64 -> N.testbit v' i = N.testbit cur i && negb (inb off w i)) ->
+    (forall r' i, r' < ROWS -> i < 64 -> fr g h r' i x0 = fr g h r' i x' + b2n ((r' =? r) && inb off w i)) ->
+    (forall r', tr g h r' x' = tr g h r' x0) -> trcount g h x' = trcount g h x0 -> hfr g h x' = hfr g h x0 ->
+    pend g h x' = pend g h x0 + w ->
+    (forall h', h' <> h -> gsame s x0 x' h') ->
+    isBad x' = 0 -> local_b g (ms_frames s) x' = true ->
+    Inv g (mk_row s h r v' t x' (ms_held s)).
+  Proof.
+    intros I Ht Hrd Hv Hh Hr Hw Hnd Hclr Hfr Htr Htrc Hhfr Hp Hs Hb Hl.
+    pose proof (rowv_rd s h r cur Hrd) as Erow.
+    pose proof (needs_counter s t x0 h I Ht Hh Hnd) as He.
+    assert (Hset : forall i, inb off w i = true -> N.testbit cur i = true).
+    { apply (owned_block s t x0 h r cur off w I Ht Hrd Hh Hr Hw Hnd). intros i Hi.
+      assert (Hi64 : i < 64) by (unfold inb in Hi; lia).
+      pose proof (Hfr r i Hr Hi64) as E. rewrite N.eqb_refl, Hi in E. cbn in E. unfold fr in *. lia. }
+    apply (inv_row_delta s t x0 x' h r cur v' _ I Ht Hrd); try assumption; try (apply I).
+    - intros h' Hne. apply gsame_H, Hs, Hne.
+    - intros r' i Hr' Hi. rewrite (Hfr r' i Hr' Hi), Htr. unfold bit. destruct (N.eqb_spec r' r) as [->|Hne]; cbn [andb].
+      + rewrite Erow, (Hclr i Hi). specialize (Hset i). destruct (inb off w i).
+        * rewrite Hset by reflexivity. cbn. lia.
+        * rewrite andb_true_r. cbn. lia.
+      + cbn. lia.
+    - intros Hm. contradiction.
+    - intros _. rewrite Hp, Htrc. pose proof (cz_clear cur v' off w Hw Hclr Hset). lia.
+    - intros Hm. contradiction.
+    - rewrite Hhfr. reflexivity.
+  Qed.
 End Shapes.
 
-(* ---------- tactics ---------- *)
-(* expose the ghost functions of concrete pcs *)
-Ltac gsimp :=
-  unfold fr, tr, pend, trcount, needsC, hfr;
-  cbn [ghost_of gpc gtoggle gpend gtr gown ghuge gput gsplit gh0 g_h own_lo own_n tr_lo tr_n p_n nd hu].
-Ltac gsimp_in H :=
-  unfold fr, tr, pend, trcount, needsC, hfr in H;
-  cbn [ghost_of gpc gtoggle gpend gtr gown ghuge gput gsplit gh0 g_h own_lo own_n tr_lo tr_n p_n nd hu] in H.
-Ltac destr_if :=
-  repeat match goal with
-         | |- context [if ?b then _ else _] => destruct b eqn:?
-         end.
-Ltac gsolve := intros; gsimp; unfold inb; try lia; destr_if; try lia.
-(* the six ghost-sameness conditions *)
-Ltac gsame_tac := constructor; gsolve.
